@@ -18,8 +18,8 @@ table = ["| change | round | what it does | own check reports it | checks that r
 n_all = len(rows)
 n_own = sum("| yes |" in r for r in rows)
 n_any = sum(not r.rstrip().endswith("| - |") for r in rows)
-by_round = {r: sum(f"| {r} |" in x for x in rows) for r in (1, 2, 3, 4)}
-text = (f"Final state, {n_all} changes (round 1: {by_round[1]}, round 2: {by_round[2]}, round 3: {by_round[3]}, round 4: {by_round[4]}). Each was confirmed in a scratch worktree (demonstration "
+by_round = {r: sum(f"| {r} |" in x for x in rows) for r in (1, 2, 3, 4, 5)}
+text = (f"Final state, {n_all} changes (round 1: {by_round[1]}, round 2: {by_round[2]}, round 3: {by_round[3]}, round 4: {by_round[4]}, round 5: {by_round[5]}). Each was confirmed in a scratch worktree (demonstration "
         f"passes on HEAD, fails with the patch; the unedited suite passes with the patch). Matrix from `tools/sweep_seeded.py` on the final checks (every change applied in "
         f"turn to /repo, the quick check of its own property run, and ALL other quick checks if that one is silent; change undone): {n_own} of {n_all} are reported by the "
         f"check of their own property, {n_any} of {n_all} by at least one check. For a change reported by its own check the last column lists only that check. The "
